@@ -92,3 +92,21 @@ package scheduler
 //@   requires s != nil && s.announceQueue != nil && qdis(s.announceQueue)
 //@   modifies *
 //@   ensures queue_consistent: qdis(s.announceQueue)
+
+// ---- C16: blacklisted peers are not dialled ----------------------------------------------------
+// A peer of an announce response is given a pending connection (and then dialled) only if the
+// connection state answered, for the clock reading of that question, that it is not blacklisted.
+//@ func announceResultEvent.apply
+//@   requires s != nil && s.announceQueue != nil && s.torrentControls != nil && s.sched != nil && s.sched.pctx != nil
+//@   requires cinv(s.conns) && blok(s.conns)
+//@   requires forall k core.InfoHash :: k in s.torrentControls ==> s.torrentControls[k] != nil && allocated(s.torrentControls[k]) && s.torrentControls[k].dispatcher != nil
+//@   requires forall j int :: 0 <= j && j < len(e.peers) ==> e.peers[j] != nil && allocated(e.peers[j])
+//@   modifies *
+//@   assert dials_only_unlisted: at State.AddPending#0 :: !blisted(s.conns, e.infoHash, p.PeerID)
+//@   loop 0 invariant same: s.conns == entry(s.conns) && s.sched == entry(s.sched) && s.sched.pctx == entry(s.sched.pctx) && s.sched.pctx != nil
+//@   loop 0 invariant cshape: cshape(s.conns)
+//@   loop 0 invariant cinner: cinner(s.conns)
+//@   loop 0 invariant cstates: cstates(s.conns)
+//@   loop 0 invariant cdistinct: cdistinct(s.conns)
+//@   loop 0 invariant blok: blok(s.conns)
+//@   loop 0 invariant peers: forall j int :: 0 <= j && j < len(e.peers) ==> e.peers[j] != nil && allocated(e.peers[j])
